@@ -348,3 +348,326 @@ Definition accepts_kfl (c : kfl_cfg) : bool :=
   (Z.eqb (k_terms c) 0 || (1 <=? k_terms c)) &&
   match k_monos c with Some m => Z.eqb (zlen m) (k_dims c) | None => true end &&
   bounds_strict_ok (k_omin c) (k_omax c).
+
+(* ========================================================================= *)
+(* Second part: RTL, CDF, lattice / PWL regulariser objects, premade          *)
+(* verify_config.  Same conventions: true = constructed (+ built), false =    *)
+(* ValueError (or, where noted, another exception class which the harness     *)
+(* reports by itself).  String-valued options arrive as the outcome of the    *)
+(* code's own membership tests (`x in [...]`, `x == '...'`), evaluated by the  *)
+(* glue of Harness/H_C16.v with Model/PyVal.v's py_in / py_eq.                 *)
+(* ========================================================================= *)
+
+(* ------------------------------------------------------------------------- *)
+(* Regularisation amounts: lattice_lib.verify_hyperparameters                  *)
+(*   if regularization_amount and isinstance(regularization_amount,            *)
+(*                                           (list, tuple)):                   *)
+(*     if len(regularization_amount) != len(lattice_sizes): raise ValueError   *)
+(* (an empty list is falsy and passes; a scalar of any type passes).           *)
+(* ------------------------------------------------------------------------- *)
+Inductive amt :=
+| AmtFloat                (* a Python float *)
+| AmtInt                  (* an int (or bool) *)
+| AmtSeq (n : Z)          (* a list / tuple of length n *)
+| AmtOther.               (* anything else (None, str ...): not inspected *)
+
+Definition amt_is_float (a : amt) : bool := match a with AmtFloat => true | _ => false end.
+Definition amt_len_ok (rank : Z) (a : amt) : bool :=
+  match a with AmtSeq n => Z.eqb n 0 || Z.eqb n rank | _ => true end.
+
+(* lattice_layer.LaplacianRegularizer / TorsionRegularizer (lattice_sizes, l1,
+   l2): verify_hyperparameters(lattice_sizes, regularization_amount=l1) and
+   the same for l2: every size >= 2, per-dimension amounts match the rank.
+   Checks modelled:  (1) size >= 2 for every size; (2) l1 list length;
+   (3) l2 list length. *)
+Record latreg_cfg := mkLRg { g_sizes : list Z; g_l1 : amt; g_l2 : amt }.
+Definition accepts_lattice_regularizer (c : latreg_cfg) : bool :=
+  sizes_ok (g_sizes c) && amt_len_ok (zlen (g_sizes c)) (g_l1 c) && amt_len_ok (zlen (g_sizes c)) (g_l2 c).
+
+(* pwl_calibration_layer.LaplacianRegularizer / HessianRegularizer /
+   WrinkleRegularizer (l1, l2, is_cyclic): __init__ stores its arguments and
+   checks nothing. *)
+Definition accepts_pwl_regularizer (l1 l2 : amt) (is_cyclic : bool) : bool := true.
+
+(* ------------------------------------------------------------------------- *)
+(* rtl_lib.verify_hyperparameters + RTL.__init__ + RTL.build                   *)
+(*                                                                             *)
+(* RTL.__init__  -> rtl_lib.verify_hyperparameters(lattice_size, output_min,   *)
+(*   output_max, interpolation, parameterization, kernel_initializer,          *)
+(*   kernel_regularizer):                                                      *)
+(*   (C1) lattice_size < 2                                         ValueError  *)
+(*   (C2) output_min, output_max both given and output_min >= output_max       *)
+(*   (C3) interpolation not in ['hypercube', 'simplex']                        *)
+(*   (C4) parameterization == 'kronecker_factored' and                         *)
+(*        kernel_initializer == 'linear_initializer'                           *)
+(*   (C5) parameterization == 'kronecker_factored' and kernel_regularizer is   *)
+(*        not None                                                             *)
+(*   (C6) kernel_regularizer truthy AND a list (a single [name, l1, l2] is     *)
+(*        wrapped): every entry has len 3, l1 is a float, l2 is a float.       *)
+(*        A TUPLE (name, l1, l2) is not inspected here.                        *)
+(*   num_lattices, lattice_rank, num_terms, init_min/max, separate_outputs,    *)
+(*   average_outputs, avoid_intragroup_interaction, clip_inputs,               *)
+(*   monotonic_at_every_step, random_seed: stored, not checked.                *)
+(* RTL.build(input_shape):                                                     *)
+(*   (B1) lattice_size < 2 again; a dict key other than 'unconstrained' /      *)
+(*        'increasing' raises KeyError (not ValueError; decision "reject")     *)
+(*   (B2) kernel_regularizer[0] of an EMPTY list: IndexError ("reject")        *)
+(*   (B3) num_lattices * lattice_rank < number of inputs          ValueError  *)
+(*        (no input at all: ZeroDivisionError, "reject")                       *)
+(*   then, for every group of lattices (there is one iff num_lattices >= 1):   *)
+(*   'all_vertices':                                                           *)
+(*   (B4) exactly one of init_min / init_max given                             *)
+(*   (B5) kernel_initializer one of the six lattice initialiser names:         *)
+(*        Linear/RandomMonotonicInitializer verify init range lo < hi, where   *)
+(*        (lo, hi) = (init_min, init_max) or lattice_lib.default_init_params   *)
+(*        (output_min, output_max); any other name goes to                     *)
+(*        keras.initializers.get (unknown name: ValueError)                    *)
+(*   (B6) Lattice.__init__ on every regulariser tuple: unpacking needs 3       *)
+(*        entries, name.lower() in {'torsion','laplacian'}, per-dimension      *)
+(*        amounts match lattice_rank                                           *)
+(*   'kronecker_factored':                                                     *)
+(*   (B7) exactly one of init_min / init_max given                             *)
+(*   (B8) kernel_initializer a KFL initialiser name or a Keras name            *)
+(*   (B9) KroneckerFactoredLattice.__init__: `num_terms and num_terms < 1`     *)
+(*        (0 passes, finding D48)                                              *)
+(*   anything else:                                                            *)
+(*   (B10) 'Unknown type of parameterization'                      ValueError  *)
+(* As is: with num_lattices < 0 and lattice_rank < 0 the product test (B3)     *)
+(* passes, range(num_lattices) is empty and none of B4-B10 is reached.         *)
+(* ------------------------------------------------------------------------- *)
+Inductive rtl_param := ParamAll | ParamKfl | ParamOther.
+Inductive init_id :=
+| InitLinearExact       (* == 'linear_initializer' *)
+| InitLatticeRanged     (* 'LinearInitializer', 'random_monotonic_initializer', 'RandomMonotonicInitializer',
+                           'random_uniform_or_linear_initializer', 'RandomUniformOrLinearInitializer' *)
+| InitKfl               (* 'kfl_random_monotonic_initializer', 'KFLRandomMonotonicInitializer' *)
+| InitKeras             (* a name keras.initializers.get knows *)
+| InitUnknown.
+
+Record reg_entry := mkReg {
+  re_len : Z;               (* len(regularizer) *)
+  re_name_known : bool;     (* name.lower() in ('torsion', 'laplacian') *)
+  re_l1 : amt; re_l2 : amt }.
+Inductive rtl_regs := RegNone | RegTuple (e : reg_entry) | RegList (es : list reg_entry).
+
+Record rtl_cfg := mkRTL {
+  t_num : Z; t_rank : Z; t_size : Z;
+  t_omin : option Q; t_omax : option Q;
+  t_interp_ok : bool;
+  t_param : rtl_param;
+  t_init : init_id;
+  t_regs : rtl_regs;
+  t_init_min : option Q; t_init_max : option Q;
+  t_terms : Z;
+  t_keys_ok : bool;                 (* every key of the input dict is 'unconstrained' or 'increasing' *)
+  t_inc : option Z;                 (* number of inputs under 'increasing' (None: key absent) *)
+  t_unc : option Z }.               (* ... under 'unconstrained' (a non-dict shape is {unconstrained: shape}) *)
+
+Definition oz0 (o : option Z) : Z := match o with Some z => z | None => 0 end.
+Definition rtl_n_inputs (c : rtl_cfg) : Z := oz0 (t_inc c) + oz0 (t_unc c).
+Definition is_kfl (p : rtl_param) : bool := match p with ParamKfl => true | _ => false end.
+Definition is_linear_exact (i : init_id) : bool := match i with InitLinearExact => true | _ => false end.
+Definition regs_given (r : rtl_regs) : bool := match r with RegNone => false | _ => true end.
+Definition regs_entries (r : rtl_regs) : list reg_entry :=
+  match r with RegNone => [] | RegTuple e => [e] | RegList es => es end.
+
+Definition rtl_lib_reg_ok (e : reg_entry) : bool :=
+  Z.eqb (re_len e) 3 && amt_is_float (re_l1 e) && amt_is_float (re_l2 e).
+Definition rtl_lib_regs_ok (r : rtl_regs) : bool :=
+  match r with RegList es => all_b rtl_lib_reg_ok es | _ => true end.
+
+Definition rtl_construct_ok (c : rtl_cfg) : bool :=
+  (2 <=? t_size c) &&
+  bounds_strict_ok (t_omin c) (t_omax c) &&
+  t_interp_ok c &&
+  negb (is_kfl (t_param c) && is_linear_exact (t_init c)) &&
+  negb (is_kfl (t_param c) && regs_given (t_regs c)) &&
+  rtl_lib_regs_ok (t_regs c).
+
+Definition init_pair_ok (c : rtl_cfg) : bool :=
+  match t_init_min c, t_init_max c with Some _, None | None, Some _ => false | _, _ => true end.
+Definition rtl_init_range (c : rtl_cfg) : Q * Q :=
+  match t_init_min c, t_init_max c with
+  | Some a, Some b => (a, b)
+  | _, _ => init_range (t_omin c) (t_omax c)
+  end.
+Definition lattice_reg_ok (rank : Z) (e : reg_entry) : bool :=
+  Z.eqb (re_len e) 3 && re_name_known e && amt_len_ok rank (re_l1 e) && amt_len_ok rank (re_l2 e).
+
+Definition rtl_initializer_ok (c : rtl_cfg) : bool :=
+  match t_param c, t_init c with
+  | ParamAll, (InitLinearExact | InitLatticeRanged) => let (a, b) := rtl_init_range c in qlt_b a b
+  | ParamAll, InitKeras => true
+  | ParamKfl, (InitKfl | InitKeras) => true
+  | _, _ => false
+  end.
+
+Definition rtl_sublayers_ok (c : rtl_cfg) : bool :=
+  match t_param c with
+  | ParamAll => init_pair_ok c && rtl_initializer_ok c && all_b (lattice_reg_ok (t_rank c)) (regs_entries (t_regs c))
+  | ParamKfl => init_pair_ok c && rtl_initializer_ok c && (Z.eqb (t_terms c) 0 || (1 <=? t_terms c))
+  | ParamOther => false
+  end.
+
+Definition regs_not_empty_list (r : rtl_regs) : bool := match r with RegList [] => false | _ => true end.
+
+Definition rtl_build_ok (c : rtl_cfg) : bool :=
+  t_keys_ok c &&
+  regs_not_empty_list (t_regs c) &&
+  (rtl_n_inputs c <=? t_num c * t_rank c) &&
+  (0 <? rtl_n_inputs c) &&
+  ((t_num c <? 1) || rtl_sublayers_ok c).
+
+Definition accepts_rtl (c : rtl_cfg) : bool := rtl_construct_ok c && rtl_build_ok c.
+
+(* ------------------------------------------------------------------------- *)
+(* cdf_layer.CDF.__init__ + build (+ the two options only call() checks)       *)
+(* __init__: (I1) utils.canonicalize_monotonicity(input_scaling_monotonicity)  *)
+(*           raises ValueError for an unknown spelling ('decreasing' / -1 is   *)
+(*           accepted and later treated like 'increasing': `if monotonicity`); *)
+(*           (I2) keras.initializers.get(kernel_initializer).                  *)
+(*           num_keypoints, units, activation, reduction, input_scaling_type,  *)
+(*           sparsity_factor are stored unchecked.                             *)
+(* build:    (B1) input_dim % sparsity_factor != 0             ValueError      *)
+(*                (sparsity_factor == 0: ZeroDivisionError, D48; "reject")     *)
+(*           (B2) units % sparsity_factor != 0                 ValueError      *)
+(*           (B3) add_weight(shape=[1, input_dim, num_keypoints,               *)
+(*                units // sparsity_factor]): TensorFlow raises ValueError for *)
+(*                a negative dimension (0 is accepted, D48)                    *)
+(*           (B4) input_scaling_type not in {'fixed', 'learned_shared',        *)
+(*                'learned_per_input'}                         ValueError      *)
+(* call:     activation not in {'relu6','sigmoid'} / reduction not in          *)
+(*           {'mean','geometric_mean','none'} raise ValueError only here       *)
+(*           (finding D49): cdf_call_ok, NOT part of accepts_cdf.              *)
+(* % and // are Python's (floor; sign of the divisor) = Z.modulo / Z.div.      *)
+(* ------------------------------------------------------------------------- *)
+Record cdf_cfg := mkCDF {
+  d_keypoints : Z; d_units : Z; d_sparsity : Z; d_dims : Z;
+  d_mono_ok : bool;          (* canonicalize_monotonicity returned *)
+  d_init_ok : bool;          (* kernel_initializer known to Keras *)
+  d_scaling_ok : bool;       (* input_scaling_type is one of the three *)
+  d_activation_ok : bool;
+  d_reduction_ok : bool }.
+
+Definition cdf_construct_ok (c : cdf_cfg) : bool := d_mono_ok c && d_init_ok c.
+Definition cdf_build_ok (c : cdf_cfg) : bool :=
+  negb (Z.eqb (d_sparsity c) 0) &&
+  Z.eqb (d_dims c mod d_sparsity c) 0 &&
+  Z.eqb (d_units c mod d_sparsity c) 0 &&
+  (0 <=? d_keypoints c) && (0 <=? d_units c / d_sparsity c) &&
+  d_scaling_ok c.
+Definition accepts_cdf (c : cdf_cfg) : bool := cdf_construct_ok c && cdf_build_ok c.
+Definition cdf_call_ok (c : cdf_cfg) : bool := d_activation_ok c && d_reduction_ok c.
+
+(* ------------------------------------------------------------------------- *)
+(* premade_lib.verify_config (the pure decision over the config fields)        *)
+(*  (V1) feature_configs is None                                               *)
+(*  CalibratedLatticeEnsembleConfig (_verify_ensemble_config):                 *)
+(*  (E1) lattices == 'rtl_layer': num_lattices None; (E2) num_lattices < 2;    *)
+(*  (E3) some feature's lattice_size differs from the first feature's;         *)
+(*  (E4) a feature with unimodality other than 'none' / 0; (E5) with           *)
+(*  reflects_trust_in; (E6) with dominates; (E7) a per-feature regulariser     *)
+(*  whose name does not start with 'calib_';                                   *)
+(*  (E8) lattices a list: fewer than 2 lattices; (E9) a lattice that is not    *)
+(*  an iterable of str;  (E10) lattices anything else ('random', 'crystals'    *)
+(*  not yet expanded, unknown words).                                          *)
+(*  parameterization == 'kronecker_factored' (Lattice / Ensemble configs,      *)
+(*  _verify_kronecker_factored_config): (K1) a model regulariser not           *)
+(*  'calib_*'; (K2) a per-feature one; (K3) lattice sizes differ; (K4)         *)
+(*  unimodality; (K5) trust; (K6) dominance.                                   *)
+(*  AggregateFunctionConfig: (A1) middle_dimension < 1; (A2)                   *)
+(*  middle_monotonicity given without middle_calibration.                      *)
+(*  every feature (_verify_feature_config): numeric (`not num_buckets`): (F1)  *)
+(*  pwl_calibration_input_keypoints iterable of int/float; categorical with a  *)
+(*  truthy monotonicity != 'none': (F2) iterable, (F3) every element           *)
+(*  iterable, (F4) every value an int, (F5) 0 <= value < num_buckets.          *)
+(*  (V2) output_initialization iterable of int/float.                          *)
+(*  NOT checked by verify_config (as is): unique feature names, lattices       *)
+(*  naming unknown features (KeyError later, D51), lattice_rank against the    *)
+(*  number of features, an empty feature list (IndexError later, D50),         *)
+(*  dominance / trust configs naming unknown features (silently skipped).      *)
+(* ------------------------------------------------------------------------- *)
+Inductive cat_elem := ElemNotIterable | ElemVals (vs : list (option Z)).   (* None: a value that is not an int *)
+Inductive cat_mono := CmFalsyOrNone | CmNotIterable | CmElems (es : list cat_elem).
+
+Record feature_cfg := mkF {
+  f_buckets : Z;                (* num_buckets, None read as 0 (`not num_buckets`) *)
+  f_keypoints_ok : bool;        (* np.iterable(keypoints) and all isinstance(x, (int, float)) *)
+  f_cat_mono : cat_mono;
+  f_lattice_size : Z;
+  f_unimodal : bool;            (* unimodality != 'none' and unimodality != 0 *)
+  f_trust : bool;               (* reflects_trust_in is not None *)
+  f_dominates : bool;           (* dominates is not None *)
+  f_regs_calib : list bool }.   (* per regulariser: name.startswith('calib_') *)
+
+Inductive model_kind := MLattice | MLinear | MEnsemble | MAggregate.
+Inductive lattices_spec :=
+| LatRtl                          (* == 'rtl_layer' *)
+| LatList (ok : list bool)        (* a list; per lattice: iterable and all str *)
+| LatOther.
+
+Record premade_cfg := mkPM {
+  m_kind : model_kind;
+  m_features : option (list feature_cfg);
+  m_lattices : lattices_spec;
+  m_num_lattices : option Z;
+  m_kfl : bool;                     (* parameterization == 'kronecker_factored' *)
+  m_regs_calib : list bool;
+  m_middle_dim : Z;
+  m_middle_mono : bool;             (* middle_monotonicity is not None *)
+  m_middle_calib : bool;
+  m_output_init_ok : bool }.
+
+Definition same_lattice_size (fs : list feature_cfg) : bool :=
+  match fs with
+  | [] => true
+  | f0 :: _ => all_b (fun f => Z.eqb (f_lattice_size f) (f_lattice_size f0)) fs
+  end.
+Definition feature_regs_calib (fs : list feature_cfg) : bool := all_b (fun f => all_b (fun b => b) (f_regs_calib f)) fs.
+Definition no_shape_constraints (fs : list feature_cfg) : bool :=
+  all_b (fun f => negb (f_unimodal f)) fs && all_b (fun f => negb (f_trust f)) fs &&
+  all_b (fun f => negb (f_dominates f)) fs.
+
+Definition ensemble_ok (c : premade_cfg) (fs : list feature_cfg) : bool :=
+  match m_lattices c with
+  | LatRtl =>
+      match m_num_lattices c with None => false | Some n => 2 <=? n end &&
+      same_lattice_size fs && no_shape_constraints fs && feature_regs_calib fs
+  | LatList oks => (2 <=? zlen oks) && all_b (fun b => b) oks
+  | LatOther => false
+  end.
+
+Definition kfl_config_ok (c : premade_cfg) (fs : list feature_cfg) : bool :=
+  all_b (fun b => b) (m_regs_calib c) && feature_regs_calib fs && same_lattice_size fs && no_shape_constraints fs.
+
+Definition aggregate_ok (c : premade_cfg) : bool :=
+  (1 <=? m_middle_dim c) && negb (m_middle_mono c && negb (m_middle_calib c)).
+
+Definition cat_elem_ok (n : Z) (e : cat_elem) : bool :=
+  match e with
+  | ElemNotIterable => false
+  | ElemVals vs => all_b (fun v => match v with Some z => (0 <=? z) && (z <? n) | None => false end) vs
+  end.
+Definition feature_ok (f : feature_cfg) : bool :=
+  if Z.eqb (f_buckets f) 0 then f_keypoints_ok f
+  else match f_cat_mono f with
+       | CmFalsyOrNone => true
+       | CmNotIterable => false
+       | CmElems es => all_b (cat_elem_ok (f_buckets f)) es
+       end.
+
+Definition is_ensemble (k : model_kind) : bool := match k with MEnsemble => true | _ => false end.
+Definition is_aggregate (k : model_kind) : bool := match k with MAggregate => true | _ => false end.
+Definition kfl_applies (c : premade_cfg) : bool :=
+  match m_kind c with MLattice | MEnsemble => m_kfl c | _ => false end.
+
+Definition accepts_verify_config (c : premade_cfg) : bool :=
+  match m_features c with
+  | None => false
+  | Some fs =>
+      (negb (is_ensemble (m_kind c)) || ensemble_ok c fs) &&
+      (negb (kfl_applies c) || kfl_config_ok c fs) &&
+      (negb (is_aggregate (m_kind c)) || aggregate_ok c) &&
+      all_b feature_ok fs &&
+      m_output_init_ok c
+  end.
